@@ -18,4 +18,6 @@ let lookup (p : string) : Model.sexp -> Model.sexp =
   | "c07" -> Model.run_c07j
   | "c16" -> Model.run_c16
   | "c08" -> Model.run_c08
+  | "c09" -> Model.run_c09
+  | "c12" -> Model.run_c12
   | _ -> failwith ("unknown property " ^ p)
